@@ -91,6 +91,17 @@ def strictConvexCCWb (V : List (P2 α)) : Bool :=
 def strictlyInsideCCWb (V : List (P2 α)) (p : P2 α) : Bool :=
   (edgesOf V).all fun e => decide (lit 0 < cross (e.2 - e.1) (p - e.1))
 
+/-- `y` belongs to the closed convex polygon `V` (counter-clockwise): on the inner side of every edge -/
+def inPolygonCCW (V : List (P2 α)) (y : P2 α) : Prop :=
+  ∀ e, e ∈ edgesOf V → lit 0 ≤ cross (e.2 - e.1) (y - e.1)
+
+def distSq (p q : P2 α) : α := (p.x - q.x) * (p.x - q.x) + (p.y - q.y) * (p.y - q.y)
+
+/-- `X` is at distance EXACTLY `r` from the convex polygon `V`: some boundary point is at distance `r`
+    and no point of the polygon is closer (this is what "on the boundary of `V ⊕ disc(r)`" means) -/
+def atDistExactly (V : List (P2 α)) (r : α) (X : P2 α) : Prop :=
+  (∃ y, onPolyBoundary V y ∧ distSq X y = r * r) ∧ ∀ y, inPolygonCCW V y → r * r ≤ distSq X y
+
 /-- `p` is on the boundary of `V ⊕ disc(r)`: at distance exactly `r` from the core polygon
     (for `r = 0` this is the boundary of the polygon itself) -/
 def onSpheroBoundary (V : List (P2 α)) (r : α) (p : P2 α) : Prop :=
